@@ -416,7 +416,19 @@ class C14(Prop):
                 raise ValueError("outside the law's domain")
             t = T.Tag(*a)
             got = T.parse_tag(str(t))
-            return got == frozenset({t}) and len(got) == 1, f"parse_tag(str(Tag{tuple(a)})) = {sorted(map(str, got))}"
+            if not (got == frozenset({t}) and len(got) == 1):
+                return False, f"parse_tag(str(Tag{tuple(a)})) = {sorted(map(str, got))}"
+            # "is {t}" element by element too, whatever has been done with either Tag before (one has been hashed by the
+            # frozenset, a fresh one has not): ==, != and membership in a sequence
+            (only,) = tuple(got)
+            fresh, fresh2 = T.Tag(*a), T.Tag(*a)
+            steps = [("fresh == parsed", fresh == only), ("parsed == fresh", only == fresh), ("not !=", not (fresh != only)),
+                     ("in tuple", fresh in tuple(got)), ("in list", only in [fresh2])]
+            hash(fresh)
+            steps += [("after hash(fresh): fresh == fresh2", fresh == fresh2), ("fresh2 == fresh", fresh2 == fresh),
+                      ("fresh == parsed", fresh == only), ("sorted lists equal", sorted(got, key=str) == [fresh2])]
+            bad = [n for n, ok in steps if ok is not True]
+            return not bad, f"Tag{tuple(a)} vs the element of parse_tag(str(t)): {bad}"
         raise KeyError(law)
 
 
